@@ -70,7 +70,11 @@ func zzService(tag string, symbolicPreimage bool) types.ServiceAccount {
 		h := hash.Blake2bHash(p)
 		a.PreimageLookup[h] = p
 		if zzvt.Bool(tag + "PreimageHasLookup") {
-			a.LookupDict[types.LookupMetaMapkey{Hash: h, Length: 3}] = types.TimeSlotSet{types.TimeSlot(zzvt.U32(tag + "slot"))}
+			set := types.TimeSlotSet{}
+			if zzvt.Bool(tag + "LookupHasSlot") { // an attributed lookup may carry an empty slot set
+				set = types.TimeSlotSet{types.TimeSlot(zzvt.U32(tag + "slot"))}
+			}
+			a.LookupDict[types.LookupMetaMapkey{Hash: h, Length: 3}] = set
 		}
 	}
 	if zzvt.Bool(tag + "HasRequest") {
